@@ -21,6 +21,8 @@ Step(e) ==
        \/ e.op = "drain" /\ Drain(e.b)
        \/ e.op = "shot" /\ Shot(e.b, e.d)
        \/ e.op = "escape" /\ Escape(e.b, e.d)
+       \/ e.op = "bounce" /\ Bounce(e.b, e.d)
+       \/ e.op = "release" /\ Release(e.d)
        \/ e.op = "request" /\ Request
        \/ /\ e.op = "rest" /\ Quiet /\ UNCHANGED vars
           \* C04: at rest every count equals the physical truth and they sum to the balls known
@@ -28,7 +30,7 @@ Step(e) ==
           /\ e.m.pf = Cardinality(In("pf")) /\ e.known = Cardinality(Balls)
           \* C05: every device back to idle, every request served if a ball was available, nothing pending
           \* (a device may keep waiting for a ball only for a request no ball exists for)
-          /\ (e.idle \/ (want > Cardinality(Balls) /\ SeqToSet(e.states) \subseteq {"idle", "waiting_for_ball"}))
+          /\ (e.idle \/ (want > Avail /\ SeqToSet(e.states) \subseteq {"idle", "waiting_for_ball"}))
           /\ Cardinality(In("pf")) = Served
 TNext == l <= Len(TL) /\ Step(TL[l]) /\ l' = l + 1 /\ UNCHANGED tid
 TSpec == TInit /\ [][TNext]_tvars
